@@ -429,7 +429,8 @@ pub fn stack_f(seed: u64, p: u64) -> Stack {
         let mode = rng.range(0, 18) as u16;
         let (lo, co) = (rng.opacity(), rng.opacity());
         // a flat rectangle of one colour, placed so that shapes of different layers mostly do not overlap
-        let colour = colours[1 + (j % 2)];
+        // consecutive layers often share the colour (identical backdrop/source pairs across cels)
+        let colour = if rng.chance(2, 3) { colours[1] } else { colours[2] };
         let x0 = ((j - 1) * (w as usize) / k) as usize;
         let x1 = (j * (w as usize) / k) as usize;
         let px: Vec<u32> = (0..n).map(|i| { let x = i % w as usize; if x >= x0 && x < x1 { colour } else { 0 } }).collect();
@@ -445,7 +446,15 @@ pub fn check_stack(stack: &Stack) -> Vec<Violation> {
         l.blend = *mode;
         l.opacity = *lo;
         sp.layers.push(l);
-        sp.cels.insert((0, j as u16), CelM { x: 0, y: 0, opacity: *co, content: CelContentM::Image { w: stack.w, h: stack.h, pixels: px_bytes(px) }, ud: None });
+        // the cel stores only the bounding box of its non-transparent pixels (as Aseprite does)
+        let w = stack.w as usize;
+        let cols: Vec<usize> = (0..w).filter(|x| (0..stack.h as usize).any(|y| px[y * w + x] >> 24 != 0)).collect();
+        let (x0, x1) = if j == 0 || cols.is_empty() { (0, w) } else { (cols[0], cols[cols.len() - 1] + 1) };
+        let mut sub: Vec<u32> = Vec::with_capacity((x1 - x0) * stack.h as usize);
+        for y in 0..stack.h as usize {
+            sub.extend_from_slice(&px[y * w + x0..y * w + x1]);
+        }
+        sp.cels.insert((0, j as u16), CelM { x: x0 as i16, y: 0, opacity: *co, content: CelContentM::Image { w: (x1 - x0) as u16, h: stack.h, pixels: px_bytes(&sub) }, ud: None });
     }
     let mut v = Variation::none();
     v.default_storage = Storage::Raw;
